@@ -78,6 +78,48 @@ class Normalizer:
         return self._cache[key]
 
 
+def completion_flag_form(st: ast.For) -> List[ast.stmt]:
+    """N16: a loop with an else-branch as the statements it abbreviates -- a completion flag cleared before every ``break`` of this loop and the
+    else-branch run under that flag (without a ``break`` the else-branch simply follows the loop)."""
+    flag = f"_qcl_completed_{st.lineno}"
+    found = [False]
+
+    def mark(body):
+        out = []
+        for b in body:
+            if isinstance(b, ast.Break):
+                found[0] = True
+                out.append(ast.copy_location(ast.Assign(targets=[ast.Name(id=flag, ctx=ast.Store())], value=ast.Constant(value=False), lineno=b.lineno), b))
+                out.append(b)
+            elif isinstance(b, ast.If):
+                out.append(ast.copy_location(ast.If(test=b.test, body=mark(b.body), orelse=mark(b.orelse)), b))
+            elif isinstance(b, ast.With):
+                out.append(ast.copy_location(ast.With(items=b.items, body=mark(b.body)), b))
+            elif isinstance(b, ast.Try):
+                nb = ast.Try(body=mark(b.body), handlers=[ast.copy_location(ast.ExceptHandler(type=h.type, name=h.name, body=mark(h.body)), h) for h in b.handlers],
+                             orelse=mark(b.orelse), finalbody=mark(b.finalbody))
+                out.append(ast.copy_location(nb, b))
+            else:
+                out.append(b)
+        return out
+    body = mark(st.body)
+    if not found[0]:
+        loop = ast.copy_location(ast.For(target=st.target, iter=st.iter, body=st.body, orelse=[]), st)
+        for a_ in ("_qcl_plain",):
+            if getattr(st, a_, False):
+                setattr(loop, a_, True)
+        ast.fix_missing_locations(loop)
+        return [loop] + list(st.orelse)
+    init = ast.copy_location(ast.Assign(targets=[ast.Name(id=flag, ctx=ast.Store())], value=ast.Constant(value=True), lineno=st.lineno), st)
+    loop = ast.copy_location(ast.For(target=st.target, iter=st.iter, body=body, orelse=[]), st)
+    if getattr(st, "_qcl_plain", False):
+        loop._qcl_plain = True
+    after = ast.copy_location(ast.If(test=ast.Name(id=flag, ctx=ast.Load()), body=list(st.orelse), orelse=[]), st.orelse[0])
+    for n_ in (init, loop, after):
+        ast.fix_missing_locations(n_)
+    return [init, loop, after]
+
+
 def search_loop_form(stmts: List[ast.stmt]) -> List[ast.stmt]:
     """N15 alone, for readers of raw statement lists (the evaluator)."""
     for i, st in enumerate(stmts):
@@ -221,41 +263,7 @@ class _Ctx:
         # N16  ``for x in D: .. break ..`` / ``else: E``   ->   ``ok = True`` / ``for x in D: .. ok = False; break ..`` / ``if ok: E``
         for i, st in enumerate(stmts):
             if isinstance(st, ast.For) and st.orelse and not getattr(st, "_qcl_plain", False):
-                flag = f"_qcl_completed_{st.lineno}"
-                found = [False]
-
-                def mark(body):
-                    out = []
-                    for b in body:
-                        if isinstance(b, ast.Break):
-                            found[0] = True
-                            out.append(ast.copy_location(ast.Assign(targets=[ast.Name(id=flag, ctx=ast.Store())], value=ast.Constant(value=False), lineno=b.lineno), b))
-                            out.append(b)
-                        elif isinstance(b, ast.If):
-                            nb = ast.If(test=b.test, body=mark(b.body), orelse=mark(b.orelse))
-                            out.append(ast.copy_location(nb, b))
-                        elif isinstance(b, (ast.With,)):
-                            nb = ast.With(items=b.items, body=mark(b.body))
-                            out.append(ast.copy_location(nb, b))
-                        elif isinstance(b, ast.Try):
-                            nb = ast.Try(body=mark(b.body), handlers=[ast.copy_location(ast.ExceptHandler(type=h.type, name=h.name, body=mark(h.body)), h) for h in b.handlers],
-                                         orelse=mark(b.orelse), finalbody=mark(b.finalbody))
-                            out.append(ast.copy_location(nb, b))
-                        else:
-                            out.append(b)
-                    return out
-                body = mark(st.body)
-                if not found[0]:
-                    # no break: the else-branch always runs after the loop
-                    loop = ast.copy_location(ast.For(target=st.target, iter=st.iter, body=st.body, orelse=[]), st)
-                    ast.fix_missing_locations(loop)
-                    return self._search_else(stmts[:i] + [loop] + list(st.orelse) + stmts[i + 1:])
-                init = ast.copy_location(ast.Assign(targets=[ast.Name(id=flag, ctx=ast.Store())], value=ast.Constant(value=True), lineno=st.lineno), st)
-                loop = ast.copy_location(ast.For(target=st.target, iter=st.iter, body=body, orelse=[]), st)
-                after = ast.copy_location(ast.If(test=ast.Name(id=flag, ctx=ast.Load()), body=list(st.orelse), orelse=[]), st.orelse[0])
-                for n_ in (init, loop, after):
-                    ast.fix_missing_locations(n_)
-                return self._search_else(stmts[:i] + [init, loop, after] + stmts[i + 1:])
+                return self._search_else(stmts[:i] + completion_flag_form(st) + stmts[i + 1:])
         return stmts
 
     def tmp(self) -> str:
@@ -939,6 +947,11 @@ class _Ctx:
     def _next_form(self, v: ast.expr):
         if isinstance(v, ast.Call) and isinstance(v.func, ast.Name) and v.func.id == "next" and len(v.args) == 2 and not v.keywords:
             src = self._deref(v.args[0])
+            d = v.args[1]
+            if isinstance(d, ast.Name) and self.fn is not None:
+                tgt = self.model.lookup_symbol(self.fn.module, d.id)
+                if isinstance(tgt, tuple) and tgt[0] == "const" and isinstance(tgt[1], ast.Call) and isinstance(tgt[1].func, ast.Name) and tgt[1].func.id == "object":
+                    return None     # ``next(.., MARKER)`` followed by a test against the marker is read as a value ("nothing selected")
             if isinstance(src, ast.GeneratorExp) and len(src.generators) == 1 and not src.generators[0].is_async:
                 it = src.generators[0].iter
                 if isinstance(it, (ast.Tuple, ast.List)):
